@@ -247,7 +247,7 @@ func dirGen(g *genCtx) {
 	cat := rtEncodeCatalogue()
 	emit := func(ops []string) { g.emit("rt", cat, strings.Join(ops, ";")) }
 	names := []string{"a.mtail", "b.mtail", "c.mtail", ".hidden.mtail", "notes.txt", "sub", "prog.mtail.bak", "x.mtail.txt", ".mtail", "mtail"}
-	vers := []int{0, 1, 6, 7, 9, 3}
+	vers := []int{0, 1, 6, 7, 9, 3, 12, 13}
 	// systematic: every file name with a good program, alone
 	for _, n := range names {
 		emit([]string{"w:" + n + ":0", "load", "l:x", "load"})
@@ -260,6 +260,9 @@ func dirGen(g *genCtx) {
 			emit([]string{fmt.Sprintf("w:a.mtail:%d", a), "load", "l:x", "mv:a.mtail:c.mtail", "load", "l:y", fmt.Sprintf("w:c.mtail:%d", b), "load", "l:x"})
 		}
 	}
+	// several kind conflicts in one refused load
+	emit([]string{"w:a.mtail:13", "load", "l:x", "w:b.mtail:12", "load", "l:y", "load"})
+	emit([]string{"w:b.mtail:12", "load", "l:x", "w:a.mtail:13", "load", "l:y", "load"})
 	n := 150
 	if g.thorough() {
 		n = 3000
